@@ -138,12 +138,23 @@ func ParamsLine(s Setup) string {
 	cb := factom.FsAddress{}.FAAddress()
 	var zero factom.FAAddress
 	return fmt.Sprintf("params pegnet=%d gradingV2=%d txConv=%d pegPricing=%d oneWayFCT=%d convLimit=%d pegFloat=%d rcde=%d v4=%d v20=%d devRewards=%d sprSig=%d oneWaySmall=%d v202=%d v204=%d v204Burn=%d pip10=%d "+
-		"tickerMax=%d tickers=%s oneway=%s snapshotRate=%d holders=%d devsPerBlock=%d bankBase=%d avgPeriod=%d avgRequired=%d syncVersion=%d devs=%s mint=%s burn=%s oldburn=%s mintaddr=%s coinbase=%s zero=%s",
+		"tickerMax=%d tickers=%s oneway=%s snapshotRate=%d holders=%d devsPerBlock=%d bankBase=%d avgPeriod=%d avgRequired=%d syncVersion=%d devs=%s mint=%s burn=%s oldburn=%s mintaddr=%s coinbase=%s zero=%s forks=%s",
 		a.Pegnet, a.GradingV2, a.TxConv, a.PegPricing, a.OneWayFCT, a.ConvLimit, a.PegFloat, a.RCDE, a.V4, a.V20, a.DevRewards, a.SprSig, a.OneWaySmall, a.V202, a.V204, a.V204Burn, a.PIP10,
 		int(fat2.PTickerMax), strings.Join(tick, ","), strings.Join(oneway, ","), pegnet.SnapshotRate, uint64(conversions.PerBlockAssetHolders), uint64(conversions.PerBlockDevelopers),
 		uint64(pegnet.BankBaseAmount), node.AveragePeriod, node.AverageRequired, pegnet.PegnetdSyncVersion,
 		strings.Join(devs, ","), strings.Join(mint, ","), addrHex(node.GlobalBurnAddress), addrHex(node.GlobalOldBurnAddress), addrHex(node.GlobalMintAddress),
-		hx(cb[:]), hx(zero[:]))
+		hx(cb[:]), hx(zero[:]), forksStr())
+}
+
+func forksStr() string {
+	var parts []string
+	for _, f := range pegnet.Hardforks {
+		parts = append(parts, fmt.Sprintf("%d:%d", f.ActivationHeight, f.MinimumVersion))
+	}
+	if len(parts) == 0 {
+		return "-"
+	}
+	return strings.Join(parts, ",")
 }
 
 // oneWayTickers is the destination set of the `OneWaySmallAssetsConversions` rule; it is
